@@ -93,9 +93,14 @@ EncRewrite(de) ==
   LET toks == Tokens(de)
       enc == StripQuotes(toks[Len(toks)])
       raw == B64Decode(enc)
-      units == [i \in 1..(Len(raw) \div 2) |-> raw[2*i - 1] + 256 * raw[2*i]]
+      le == [i \in 1..(Len(raw) \div 2) |-> raw[2*i - 1] + 256 * raw[2*i]]
+      be == [i \in 1..(Len(raw) \div 2) |-> raw[2*i] + 256 * raw[2*i - 1]]
+      \* Python's "utf-16" codec: a leading byte-order mark selects the byte order and is not part of the text
+      units == IF Len(le) >= 1 /\ le[1] = 65279 THEN SubSeq(le, 2, Len(le))
+               ELSE IF Len(le) >= 1 /\ le[1] = 65534 THEN SubSeq(be, 2, Len(be))
+               ELSE le
       okB64 == Len(toks) >= 2 /\ Len(enc) % 4 = 0 /\ enc # <<>> /\ (\A i \in 1..Len(enc) : IsB64(enc[i]) \/ enc[i] = 61)
-      okU16 == Len(raw) % 2 = 0 /\ (\A i \in 1..Len(units) : units[i] < 55296) /\ (Len(units) = 0 \/ units[1] # 65279)
+      okU16 == Len(raw) % 2 = 0 /\ (\A i \in 1..Len(units) : units[i] < 55296)
       text == Concat([i \in 1..Len(units) |-> Utf8(units[i])])
       \* the invocation: everything before the last token, "/" switches turned into " -", first token repaired,
       \* the encoded-command switch (the last remaining token) dropped
